@@ -6,13 +6,14 @@ import json, subprocess, sys, os, tempfile, concurrent.futures as cf
 prop = sys.argv[1]
 limit = int(sys.argv[2]) if len(sys.argv) > 2 else 10**9
 os.chdir('/verif')
-out = subprocess.run([os.environ.get('GJSCHECK', './bin/gjscheck'), '-verif', '/verif', '-property', prop, '-no-evidence', '-renames'], capture_output=True, text=True).stdout
+REPO = os.environ.get('FUZZ_REPO', '/repo')
+out = subprocess.run([os.environ.get('GJSCHECK', './bin/gjscheck'), '-verif', '/verif', '-repo', REPO, '-property', prop, '-no-evidence', '-renames'], capture_output=True, text=True).stdout
 cands = [json.loads(l) for l in out.splitlines() if l.startswith('{')]
 cands = cands[:limit]
 tmp = tempfile.mkdtemp(prefix='renfuzz-')
 def run(i_c):
     i, c = i_c
-    src = open('/repo/' + c['file'], 'rb').read()
+    src = open(REPO + '/' + c['file'], 'rb').read()
     new = (c['name'] + 'Q').encode()
     old = c['name'].encode()
     for off in sorted(c['offsets'], reverse=True):
@@ -20,7 +21,7 @@ def run(i_c):
         src = src[:off] + new + src[off+len(old):]
     f = os.path.join(tmp, f'{i}.go')
     open(f, 'wb').write(src)
-    p = subprocess.run([os.environ.get('GJSCHECK', './bin/gjscheck'), '-verif', '/verif', '-property', prop, '-no-evidence', '-overlay', f"{c['file']}={f}"], capture_output=True, text=True)
+    p = subprocess.run([os.environ.get('GJSCHECK', './bin/gjscheck'), '-verif', '/verif', '-repo', REPO, '-property', prop, '-no-evidence', '-overlay', f"{c['file']}={f}"], capture_output=True, text=True)
     os.remove(f)
     bad = [l for l in p.stdout.splitlines() if ' violated ' in l or ' undecided ' in l]
     return c, p.returncode, bad
